@@ -5,6 +5,35 @@ V = os.path.dirname(os.path.dirname(os.path.abspath(__file__)))
 props = [json.loads(l) for l in open(os.path.join(V, "properties.jsonl"))]
 
 CLAIMED = {
+ "C04": dict(
+  text="Machine-checked proof (Coq 8.16, real analysis over stdlib Reals) that, at contraction 1 and for every horizon N (hence the infinite series), the union-bound failure probability of the confidence schedules REGENERATED from the source is at most delta: Auer (sigma^2 <= 1), VOGP, eps-PAL (m >= 2, via the Mills ratio), PaVeBa (m <= 4), PaVeBaGP with rectangles and ellipsoids, PaVeBaPartialGP with rectangles (m <= 5). The Gaussian tail facts are named hypotheses of the theorems. Tied to /repo by the translator, whose output is validated against the floats returned by the implementation with the interval tactic, and by checking the region produced from a scale and a known correlated covariance.",
+  note="PARTIAL: tail_ok / mills_ok / chi2_ok are hypotheses (no probability library installed); not covered: PaVeBa m in {5,6}, PaVeBaPartialGP ellipsoids m >= 3 and rectangles m = 6, Auer's empirical branch, VOGP_AD. Axioms: the standard real-number axioms (sig_forall_dec, sig_not_dec, functional_extensionality_dep, classic). The interval validation goals (not obligations) additionally use the Interval library's primitive-integer axioms.",
+  technique="Coq real-analysis proof over translator-regenerated formulas + interval validation against the implementation", design="4/C04"),
+ "C08": dict(
+  text="Machine-checked proof (Coq 8.16): deterministic half over Q — if all pairwise facet deviations of the sample means are at most eta with 2 eta <= eps alpha_n, the Pareto set of the sample means (C13 model) contains no design exceeded by more than eps alpha_n on every facet and covers every design up to eta z (W z >= 1); probabilistic half over R — with the default sample count regenerated from the source the union bound over pairs and facets is at most delta under the Chernoff hypothesis. Tied to /repo by the translator (L formula, P data flow, sampling loop), interval validation of algorithm.L, a closed-form failure-probability search over two-design instances, and P == extracted Pareto set of the sample means on scripted runs.",
+  note="PARTIAL: the Gaussian tail bound is a hypothesis; the probability model (deviations ~ N(0, 2 sigma^2/L)) is documented, not proved. Axioms: standard real-number axioms for the R theorem; Q theorems closed.",
+  technique="Coq proof (C13 corollaries + real analysis) over regenerated formula + closed-form failure search", design="4/C08"),
+ "C15": dict(
+  text="PARTIAL. Machine-checked proof (Coq 8.16) of the wrappers' bookkeeping for every add / update / clear history: each objective holds exactly the samples the history gave it since the last clear, the gpytorch model is conditioned on exactly what was held at the last update, batching is irrelevant, a model-list observation touches only its objective, cleared samples are forgotten after update, and the train-and-freeze helpers return a model conditioned on exactly the initial samples. The posterior algebra itself (gpytorch) is validated, not proved: predict() is compared with the closed-form posterior of the held data built from the model's own kernel / mean / noise, for N = 1, 2, 4, all three classes, histories incl. clear-and-refill, order/batching independence, variance monotonicity, hyper-parameter shapes.",
+  note="PARTIAL: posterior exactness, order independence, variance non-negativity/monotonicity are numerical validation (1e-6), not theorems; full-matrix noise with the independent model has no oracle. All theorems closed under the global context.",
+  technique="Coq proof of wrapper bookkeeping + numerical posterior validation (partial)", design="4/C15"),
+ "C17": dict(
+  text="Machine-checked proof (Coq 8.16) of the soundness of certificate checkers that sandwich every cone constant: alpha_n <= |w_n + W^T lam| (lam >= 0) and alpha_n >= w_n.x/|x| (x in the cone); d1 >= lam.1/|W^T lam| (lam >= 0, lam.1 > 0) and d1 <= |z| (W z >= 1); the direction of any feasible z lies in the cone; plus closed forms over R: alpha of two unit facets with w1.w2 = -cos theta is sin theta (acute) / 1 (obtuse), the regenerated 2-D theta cone has such facets, and the regenerated ConeTheta2D.beta is its reciprocal. Every constant the library computes (bundled cones over their parameter ranges, random cones in 2-4 D) must lie in a certified interval of relative width 1e-6.",
+  note="Trusted: Coq kernel; the numerical optimisers (cvxpy, SLSQP) are modelled and only their results are certified per instance; translator recognisers for the posed problems. Q theorems closed; R theorems with the standard real-number axioms.",
+  technique="Coq proof (duality certificates, closed forms) + per-instance certificate checking of the implementation's constants", design="4/C17"),
+ "C18": dict(
+  text="Machine-checked proof (Coq 8.16): refinement produces 2^d children that cover exactly the parent, have pairwise disjoint interiors, half side length, centres inside, depth + 1 and the parent's region; for every VOGP_AD bookkeeping history (any discards, gated covers, refinements under the depth guard) depths never exceed the maximum, every declared design is at the maximum depth, the leaves cover the unit cube and have pairwise disjoint interiors, and the sets stay disjoint. Tied to /repo by exact correspondence of refine_design with the extracted model and by monitoring real VOGP_AD runs (stub GP) after every step.",
+  note="Trusted: Coq kernel; hand-written model Adaptive.v (correspondence + run monitoring); should_refine's V_h formula is not modelled (arbitrary oracle below max depth); extraction + driver. All theorems closed under the global context.",
+  technique="Coq proof (tiling geometry + invariant over all op histories) + refine correspondence + monitored runs", design="4/C18"),
+ "C19": dict(
+  text="Machine-checked proof (Coq 8.16): m(i,j) as computed is the largest positive shift s such that mu_j dominates mu_i + s u for every cone vector u of norm at most 1 (alpha_n the supremum of the n-th facet functional), the gap is zero exactly when no design dominates in the cone's interior, verified certificates for eps-coverage (witness / weak-duality multiplier), monotonicity of coverage and of the true-positive count in eps, and the F1 arithmetic (range, perfect prediction, monotonicity). Tied to /repo by correspondence of get_smallmij / get_delta with the extracted definitions, of utils.is_covered with checked certificates, and of calculate_epsilonF1_score with the recomputed formula.",
+  note="Trusted: Coq kernel; hand-written Metrics.v (correspondence); cvxpy in utils.is_covered modelled (certificates); the hypervolume clause is NOT covered (botorch oracle). All theorems closed under the global context.",
+  technique="Coq proof (gap characterisation, certificate soundness, F1 arithmetic) + correspondence / certificate checks", design="4/C19"),
+ "C20": dict(
+  text="Machine-checked proof (Coq 8.16): the nearest-design lookup returns the first index of minimal squared distance (an on-grid query returns a design at distance zero); the regenerated decoupled selection returns exactly the requested component(s) with its length guard; the regenerated noise map is y = f + L g whose second moments over unit draws are L L^T; regenerated normalise / unnormalise are mutual inverses; the regenerated aliasing fact says BraninCurrin does not write through its argument. Tied to /repo by the translator and by exact checks with recorded draws, injected datasets, input arrays compared before/after, and exhaustive checks of the bundled datasets.",
+  note="Trusted: Coq kernel; translator for the listed functions; sklearn distance/scalers modelled; the Gaussian law of np.random.normal is not verified (draw recorded). All theorems closed under the global context.",
+  technique="Coq proof over regenerated definitions + exact recorded-draw / dataset checks", design="4/C20"),
+
  "C07": dict(
   text="Machine-checked proof (Coq 8.16), for arbitrary acquisition value tables including ties, that the model of optimize_acqf_discrete returns min(q, #choices) distinct choices in non-increasing order, each maximal among those not picked before (first index on ties), and that selecting the q best of the pooled per-objective picks (the contract of optimize_decoupled_acqf_discrete) is selecting the q best (design, objective) pairs of the whole table. Tied to /repo by exact correspondence on enumerated / random tables and by whole-step checks with recording proxies (active designs only, recomputed acquisition maximisers, data reaching the model).",
   note="Trusted: Coq kernel; hand-written Optimize.v (correspondence); argpartition/argsort tie order unspecified (contract checked); evaluating() data flow checked at run time only; extraction + driver. All theorems closed under the global context.",
